@@ -5,7 +5,7 @@ PREFIXES = ("C08-", "C09-reader-raised")
 
 
 def run(ctx):
-    cc.run(ctx, PREFIXES, nsim=ctx.pick(30, 800), nrand=ctx.pick(60, 2500), sim_depth=ctx.pick(12, 16),
+    cc.run(ctx, PREFIXES, nsim=ctx.pick(30, 600), nrand=ctx.pick(60, 1200), sim_depth=ctx.pick(12, 16),
            what="read, get_continuous_blocks, read(sub_channel), get_bounds, read_vector / read_vector_raw / read_vector_1d on "
                 "all interesting points (file, block, gap edges +-1, session starts, outside the data), random split points, "
                 "vector lengths 1, 2, nsub and random",
